@@ -7,89 +7,72 @@ import (
 	"golang.org/x/tools/go/ssa"
 )
 
-// GUARD(explicit-id): a lexeme may carry an explicit identifier `name (id): /re/`. Terminal
-// identifiers are upper-case in generated code; traverseLexer passes an explicit id through
-// ident.Produce(.., UpperCase) unless it is already free of lower-case letters. The raw
-// spelling may therefore reach resolver.addToken only on the false edge of
-// strings.ContainsFunc(id, unicode.IsLower).
+// GUARD(explicit-id): a lexeme may carry an explicit identifier `name (id): /re/`. The syntax
+// admits spellings that are no identifiers (hyphens, quoted ids). Every explicit id that
+// reaches resolver.addToken (in traverseLexer and parseFlexDeclarations) is the result of
+// ident.Produce(id, UpperCase); the raw spelling never does.
 func ruleEXPLICITID(c *Ctx) {
 	const rule = "GUARD(explicit-id)"
-	f := c.SSAFunc("compiler", "(*lexerCompiler).traverseLexer")
-	if f == nil {
-		c.Lost(rule, "compiler.lexerCompiler.traverseLexer", "function not found")
-		return
-	}
 	n := 0
-	for _, b := range f.Blocks {
-		for _, ins := range b.Instrs {
-			call, ok := ins.(*ssa.Call)
-			if !ok {
-				continue
-			}
-			g := call.Call.StaticCallee()
-			if g == nil || g.Name() != "addToken" || len(call.Call.Args) < 3 {
-				continue
-			}
-			id := call.Call.Args[2]
-			// leaves of the id value with the conditions of the edge they arrive on
-			type leaf struct {
-				v     ssa.Value
-				conds []gcond
-			}
-			var leaves []leaf
-			var walk func(v ssa.Value, conds []gcond, d int)
-			walk = func(v ssa.Value, conds []gcond, d int) {
-				if d > 6 {
-					return
+	for _, fname := range []string{"traverseLexer", "parseFlexDeclarations"} {
+		f := c.SSAFunc("compiler", "(*lexerCompiler)."+fname)
+		if f == nil {
+			c.Lost(rule, "compiler.lexerCompiler."+fname, "function not found")
+			continue
+		}
+		for _, b := range f.Blocks {
+			for _, ins := range b.Instrs {
+				call, ok := ins.(*ssa.Call)
+				if !ok {
+					continue
 				}
-				if p, ok := v.(*ssa.Phi); ok {
-					for i, e := range p.Edges {
-						pred := p.Block().Preds[i]
-						cs := append(append([]gcond{}, conds...), flattenConds(governing(pred))...)
-						cs = append(cs, flattenConds(edgeConds(pred, p.Block()))...)
-						walk(e, cs, d+1)
+				g := call.Call.StaticCallee()
+				if g == nil || g.Name() != "addToken" || len(call.Call.Args) < 3 {
+					continue
+				}
+				id := call.Call.Args[2]
+				// leaves of the id value with the conditions of the edge they arrive on
+				type leaf struct {
+					v     ssa.Value
+					conds []gcond
+				}
+				var leaves []leaf
+				var walk func(v ssa.Value, conds []gcond, d int)
+				walk = func(v ssa.Value, conds []gcond, d int) {
+					if d > 6 {
+						return
 					}
-					return
-				}
-				leaves = append(leaves, leaf{v, conds})
-			}
-			walk(id, nil, 0)
-			for _, lf := range leaves {
-				if k, ok := lf.v.(*ssa.Const); ok && k.Value != nil {
-					continue // "" : no explicit id
-				}
-				if cl, ok := lf.v.(*ssa.Call); ok {
-					if h := cl.Call.StaticCallee(); h != nil && h.Name() == "Produce" {
-						n++
-						if len(cl.Call.Args) == 2 && isEnumConst(c, cl.Call.Args[1], "util/ident", "UpperCase") {
-							c.Ok(rule, "compiler.lexerCompiler.traverseLexer:id=Produce", cl.Pos(), "an explicit id with lower-case letters goes through ident.Produce(id, UpperCase)")
-						} else {
-							c.Bad(rule, "compiler.lexerCompiler.traverseLexer:id=Produce", cl.Pos(), "explicit terminal ids must be produced in the UpperCase style")
+					if p, ok := v.(*ssa.Phi); ok {
+						for i, e := range p.Edges {
+							pred := p.Block().Preds[i]
+							cs := append(append([]gcond{}, conds...), flattenConds(governing(pred))...)
+							cs = append(cs, flattenConds(edgeConds(pred, p.Block()))...)
+							walk(e, cs, d+1)
 						}
-						continue
+						return
 					}
+					leaves = append(leaves, leaf{v, conds})
 				}
-				// the raw spelling
-				n++
-				key := "compiler.lexerCompiler.traverseLexer:id=raw"
-				ok := false
-				for _, gc := range lf.conds {
-					cc, isCall := gc.V.(*ssa.Call)
-					if !isCall || gc.Pol {
-						continue
+				walk(id, nil, 0)
+				for _, lf := range leaves {
+					if k, ok := lf.v.(*ssa.Const); ok && k.Value != nil {
+						continue // "" : no explicit id
 					}
-					h := cc.Call.StaticCallee()
-					if h == nil || h.Name() != "ContainsFunc" || len(cc.Call.Args) != 2 {
-						continue
+					if cl, ok := lf.v.(*ssa.Call); ok {
+						if h := cl.Call.StaticCallee(); h != nil && h.Name() == "Produce" {
+							n++
+							if len(cl.Call.Args) == 2 && isEnumConst(c, cl.Call.Args[1], "util/ident", "UpperCase") {
+								c.Ok(rule, "compiler.lexerCompiler."+fname+":id=Produce", cl.Pos(), "an explicit id with lower-case letters goes through ident.Produce(id, UpperCase)")
+							} else {
+								c.Bad(rule, "compiler.lexerCompiler."+fname+":id=Produce", cl.Pos(), "explicit terminal ids must be produced in the UpperCase style")
+							}
+							continue
+						}
 					}
-					if fn, isFn := cc.Call.Args[1].(*ssa.Function); isFn && fn.Name() == "IsLower" && fn.Pkg != nil && fn.Pkg.Pkg.Path() == "unicode" && vpath(cc.Call.Args[0]) == vpath(lf.v) {
-						ok = true
-					}
-				}
-				if ok {
-					c.Ok(rule, key, call.Pos(), "the explicit id is used verbatim only when strings.ContainsFunc(id, unicode.IsLower) is false")
-				} else {
-					c.Bad(rule, key, call.Pos(), "the explicit id %s reaches addToken verbatim on a path that does not exclude lower-case letters (conditions: %s): a mixed-case id such as foo-Bar is neither upper-cased nor sanitised", normalizePhi(vpath(lf.v)), strings.Join(condStrings(lf.conds), " && "))
+					// the raw spelling
+					n++
+					key := "compiler.lexerCompiler." + fname + ":id=raw"
+					c.Bad(rule, key, call.Pos(), "the explicit id %s reaches addToken verbatim (conditions: %s): an id the grammar syntax admits but that is no identifier (FOO-BAR, a quoted '+', mixed case) becomes an invalid or wrongly cased constant; every explicit id goes through ident.Produce(id, UpperCase), which leaves well-formed upper-case identifiers unchanged", normalizePhi(vpath(lf.v)), strings.Join(condStrings(lf.conds), " && "))
 				}
 			}
 		}
